@@ -722,6 +722,50 @@ def rule_cursor(ck, facts):
     else:
         ck.bad(R, "anchor|execute_idx", "VM entry Machine::execute_idx not found")
 
+    # the per-closure cursor reset belongs to the closure that is leaving: where a host function resets a cursor found
+    # through the top of the closure-state stack and pops that stack, the top is read before the pop
+    from ..cfg import DefIndex
+    m = 0
+    for f in lang.fns:
+        if "runtime::wasm" not in f.path or f.kind == "promoted" or "::test" in f.path:
+            continue
+        di = None
+        pops, lasts = [], []
+        for b, t in f.calls():
+            n2 = (callee(t) or "").split("::")[-1]
+            if n2 not in ("pop", "last", "last_mut") or not t[5]:
+                continue
+            di = di or DefIndex(f)
+            r = di.resolve(t[5][0])
+            fld = None
+            cur = t[5][0]
+            for _ in range(4):
+                r = di.resolve(cur)
+                if r[0] == "rv" and r[1][5][0] == "ref":
+                    fl = [x for x in place_fields(r[1][5][1]) if x and "::" in x]
+                    if fl:
+                        fld = fl[-1]
+                        break
+                    cur = ["cp", [r[1][5][1][0], []]]
+                    continue
+                if r[0] == "call" and r[1][5]:
+                    cur = r[1][5][0]
+                    continue
+                break
+            if fld and fld.endswith("RuntimeState::state_stack"):
+                (pops if n2 == "pop" else lasts).append(b)
+        resets = [b for b, st in f.all_stmts() if st[KIND] == "a" and st[4][1] and (place_fields(st[4]) or [None])[-1] and place_fields(st[4])[-1].endswith("StateStorage::pos") and st[5][0] == "use" and st[5][1][0] == "c"]
+        if not (pops and resets):
+            continue
+        m += 1
+        dom = dominators(f)
+        ok2 = bool(lasts) and all(any(l in dom.get(pb, ()) for l in lasts) for pb in pops)
+        key2 = "outgoing-reset|%s" % f.short.split("::")[-1]
+        if ok2:
+            ck.ok(R, key2)
+        else:
+            ck.bad(R, key2, "%s pops the closure-state stack before it looks up the entry whose cursor it resets: the reset lands on the caller's state that becomes active again, not on the closure that returns, so the caller's later cells are addressed from offset 0 (cell 3 aliases cell 2 on WASM only)" % f.short, f.where())
+    ck.floor(R, "closure_cursor_resets", m, 1)
 
 def run(ck, facts, tier):
     rule_sizes(ck, facts)
